@@ -22,7 +22,7 @@ CLASSES = {
     'ensemble_maps': {'quick': 72, 'thorough': 1200},
 }
 MIN_EVENTS = {'quick': {'assert:perm': 300, 'assert:map': 150, 'nonidentity_completion_orders': 30}}
-CASE_TIMEOUT = 180
+CASE_TIMEOUT = 300
 
 
 # ------------------------------------------------------------------ map zoo
@@ -293,11 +293,13 @@ def run_ensemble_maps(rng, obs):
     if spec[0] == 'plateau' and rng.random() < 0.7:      # a wide box around the plateau so that several members reach the bottom
         box = {'lo': [round(c - 6.0, 2) for c in spec[1]], 'hi': [round(c + 6.0, 2) for c in spec[1]], 'shape': 'finite'}
     npts = rng.choice([2, 3, 4, 6])
-    maxiter = rng.choice([3, 8, 20, 60, 200])          # (long enough, sometimes, for members to stop on their own at different times while others go on)
+    maxiter = rng.choice([3, 8, 20, 60, 200])
+    if nested == 'powell' and maxiter > 60: maxiter = 60          # (a Powell iteration is a whole sweep of line searches: 200 of them times 14 schedules is minutes of CPU)          # (long enough, sometimes, for members to stop on their own at different times while others go on)
     obs.desc = {'ensemble': which, 'nested': nested, 'dim': dim, 'cost': spec, 'box': box, 'npts': npts, 'maxiter': maxiter}
     mons = rng.choice(['none', 'none', 'both', 'both', 'evalmon', 'stepmon'])   # copy-semantics maps splice member monitors back: which monitors exist matters
     restart = rng.random() < 0.4                                                # a second Solve with raised limits on the same ensemble
     instance = rng.choice([None, None, None, 'plain', 'tight'])
+    if instance == 'tight' and maxiter > 20: maxiter = 20; obs.desc['maxiter'] = 20      # (tight ranges solve a symbolic system at every evaluation)
     if instance: restart = False          # (limits of a configured instance are its own: the restart protocol of this case raises the ensemble's)
     if instance == 'tight' and spec[0] not in ('plateau', 'step'):
         # an optimum on or beyond a face of the box, so that the treatment of the ranges matters
